@@ -425,6 +425,9 @@ Section Gsm.
 
   Definition gsm_ncells prnmap sigmap (sigcode:bool) (df394 df395:Z) : nat :=
     (List.length (gsm_satlabels prnmap df394) * List.length (gsm_sigs sigmap sigcode df395))%nat.
+  Lemma gsm_ncells_eq prnmap sigmap sigcode df394 df395 :
+    gsm_ncells prnmap sigmap sigcode df394 df395 = (List.length (gsm_satlabels prnmap df394) * List.length (gsm_sigs sigmap sigcode df395))%nat.
+  Proof. reflexivity. Qed.
   (* what the source does: DF396 is read inside the nested loop only, i.e. only if some (satellite, signal) pair exists *)
   Definition getsatcellmaps_lazy (ident:string) (o:obj) : outcome obj :=
     match assoc (substring 0 3 ident) (t_prnsig T) with
@@ -440,12 +443,12 @@ Section Gsm.
     unfold gsm_pairs. induction sl as [|s r IH]; [reflexivity|].
     cbn [flat_map List.length]. rewrite app_length, map_length, IH. reflexivity.
   Qed.
-  Lemma gsm_hits_none sl sg c c' : (List.length sl * List.length sg)%nat = 0%nat -> gsm_hits sl sg c = gsm_hits sl sg c'.
+  Lemma gsm_result_none o pm sm a b c c' : gsm_ncells pm sm (negb (o_labelmsm o =? 2)) a b = 0%nat ->
+    gsm_result o pm sm a b c = gsm_result o pm sm a b c'.
   Proof.
-    intro H. unfold gsm_hits. pose proof (gsm_pairs_length sl sg) as L. rewrite H in L.
-    destruct (gsm_pairs sl sg); [reflexivity|discriminate].
+    intro E. rewrite gsm_ncells_eq, <- gsm_pairs_length in E. apply length_zero_iff_nil in E.
+    unfold gsm_result, gsm_hits. cbv zeta. rewrite E. reflexivity.
   Qed.
-
   (* the only inputs on which the model (eager read) and the source (lazy read) differ *)
   Definition lazy_same (ident:string) (o:obj) : Prop :=
     match assoc (substring 0 3 ident) (t_prnsig T), getint o "DF394", getint o "DF395" with
@@ -461,7 +464,7 @@ Section Gsm.
     destruct (getint o "DF394") as [a| | |]; cbn [obind]; [|reflexivity..].
     destruct (getint o "DF395") as [b| | |]; cbn [obind]; [|reflexivity..].
     intro H. destruct (Nat.eqb_spec (gsm_ncells pm sm (negb (o_labelmsm o =? 2)) a b) 0) as [E|E]; [|reflexivity].
-    destruct (H E) as [c ->]. cbn [obind]. unfold gsm_result. rewrite (gsm_hits_none _ _ 0 c E). reflexivity.
+    destruct (H E) as [c ->]. cbn [obind]. apply f_equal. apply gsm_result_none. exact E.
   Qed.
   Lemma lazy_same_int ident o c : getint o "DF396" = Ok c -> lazy_same ident o.
   Proof.
@@ -469,3 +472,110 @@ Section Gsm.
     destruct (getint o "DF394"); try exact I. destruct (getint o "DF395"); try exact I. intros _. eauto.
   Qed.
 End Gsm.
+
+(* ================= values ================= *)
+(* x >> n & 1 as a truth value *)
+Lemma shr_and1 z n : 0 <= n -> negb (Z.land (Z.shiftr z n) 1 =? 0) = Z.testbit z n.
+Proof.
+  intro H. change 1 with (Z.ones 1). rewrite Z.land_ones by lia. change (2 ^ 1) with 2.
+  rewrite <- Z.bit0_mod, Z.shiftr_spec by lia. rewrite Z.add_0_l.
+  destruct (Z.testbit z n); reflexivity.
+Qed.
+
+Section Dicts.
+  Notation dict_get := (dict_get dob).
+  Notation dict_set := (dict_set dob).
+  Variable B : Type.
+  Variable G : B -> val dob.
+  Let ent (kv:Z * B) : val dob * val dob := (PyO.VInt (fst kv), G (snd kv)).
+
+  Lemma dict_get_int k (l:list (Z * B)) :
+    dict_get (PyO.VInt k) (map ent l) = Some (option_map G (zassoc k l)).
+  Proof.
+    induction l as [|[k' x] r IH]; [reflexivity|].
+    cbn [map ent fst snd PyO.dict_get eq_val zassoc]. destruct (k' =? k); [reflexivity|exact IH].
+  Qed.
+  Lemma dict_set_fresh k v (l:list (Z * B)) : ~ In k (map fst l) ->
+    dict_set (PyO.VInt k) v (map ent l) = Some (map ent l ++ [(PyO.VInt k, v)])%list.
+  Proof.
+    induction l as [|[k' x] r IH]; intro H; [reflexivity|].
+    cbn [map ent fst snd PyO.dict_set eq_val].
+    destruct (Z.eqb_spec k' k) as [->|NE]; [exfalso; apply H; left; reflexivity|].
+    rewrite IH by (intro H'; apply H; right; exact H'). reflexivity.
+  Qed.
+  (* d[len+1] = v on a dict numbered 1..len *)
+  Lemma dict_set_number (l:list B) x :
+    dict_set (PyO.VInt (Z.of_nat (List.length l) + 1)) (G x) (map ent (number l)) = Some (map ent (number (l ++ [x]))).
+  Proof.
+    rewrite dict_set_fresh.
+    - rewrite number_app, map_app. reflexivity.
+    - intro H. apply number_keys in H. lia.
+  Qed.
+  Lemma dict_get_number (l:list B) (j:nat) d : (j < List.length l)%nat ->
+    dict_get (PyO.VInt (Z.of_nat j + 1)) (map ent (number l)) = Some (Some (G (nth j l d))).
+  Proof. intro H. rewrite dict_get_int, (zassoc_number l j d H). reflexivity. Qed.
+End Dicts.
+
+Lemma satmap_val_eq l : satmap_val (Some l) = VDict (map (fun kv => (PyO.VInt (fst kv), PyO.VStr (snd kv))) l).
+Proof. reflexivity. Qed.
+Lemma cellmap_val_eq l :
+  cellmap_val (Some l) = VDict (map (fun kv => (PyO.VInt (fst kv), VTuple [PyO.VStr (fst (snd kv)); PyO.VStr (snd (snd kv))])) l).
+Proof. reflexivity. Qed.
+
+(* l[j] for a position inside the list *)
+Lemma index_list_nth (l:list (val dob)) (j:nat) d : (j < List.length l)%nat -> index_list dob l (Z.of_nat j) = ROk (nth j l d).
+Proof.
+  intro H. unfold index_list, list_pos.
+  replace (Z.of_nat j <? 0) with false by (symmetry; apply Z.ltb_ge; lia).
+  replace (Z.of_nat j <? Z.of_nat (List.length l)) with true by (symmetry; apply Z.ltb_lt; lia).
+  rewrite Nat2Z.id, (nth_error_nth' l d H). reflexivity.
+Qed.
+
+(* setting an attribute twice *)
+Lemma setattr_twice x v w (a:env dob) : PyO.setattr dob x v (PyO.setattr dob x w a) = PyO.setattr dob x v a.
+Proof.
+  induction a as [|[k u] r IH]; cbn [PyO.setattr].
+  - now rewrite String.eqb_refl.
+  - destruct (String.eqb k x) eqn:E; cbn [PyO.setattr]; rewrite E; [reflexivity|]. now rewrite IH.
+Qed.
+
+(* ================= the environment on the calls these methods make ================= *)
+Section ExtEqs.
+  Variable T : tables.
+  Notation ext := (msgdec_ext T).
+  Lemma ext_prnsig k w :
+    ext {| c_name := "PRNSIGMAP[]"; c_kw := [] |} [VStr k] w =
+    (match assoc k (t_prnsig T) with
+     | Some (pm, sm) => ROk (VTuple [VOpq (DPrn pm); VOpq (DSig sm)])
+     | None => RExc "KeyError" end, tt).
+  Proof. reflexivity. Qed.
+  Lemma ext_prn_get m i d w :
+    ext {| c_name := ".get"; c_kw := [] |} [VOpq (DPrn m); PyO.VInt i; d] w = (ROk (match zassoc i m with Some x => VStr x | None => d end), tt).
+  Proof. reflexivity. Qed.
+  Lemma ext_sig_get m i d w :
+    ext {| c_name := ".get"; c_kw := [] |} [VOpq (DSig m); PyO.VInt i; d] w =
+    (ROk (match zassoc i m with Some (a, b) => VTuple [VStr a; VStr b] | None => d end), tt).
+  Proof. reflexivity. Qed.
+  Lemma ext_fields k w :
+    ext {| c_name := "RTCM_DATA_FIELDS[]"; c_kw := [] |} [VStr k] w =
+    (match find_field T k with
+     | Some fd => match res_val (df_res fd) with
+                  | ROk r => ROk (VTuple [VStr (dtype_name (df_ty fd)); PyO.VInt (df_bits fd); r; VStr (df_desc fd)])
+                  | RExc c' => RExc c' | RFail f => RFail f end
+     | None => RExc "KeyError" end, tt).
+  Proof. reflexivity. Qed.
+End ExtEqs.
+
+(* ================= small list facts for the loops ================= *)
+Lemma fold_last_seq {V} (inj:nat -> V) n u : fold_left (fun _ x => inj x) (seq 0 (S n)) u = inj n.
+Proof.
+  rewrite seq_S, fold_left_app. reflexivity.
+Qed.
+Lemma fold_last_seq0 {V} (inj:nat -> V) n u : fold_left (fun _ x => inj x) (seq 0 n) u = match n with O => u | S k => inj k end.
+Proof. destruct n; [reflexivity|apply fold_last_seq]. Qed.
+Lemma filter_map_comm {A B} (p:B -> bool) (g:A -> B) l : filter p (map g l) = map g (filter (fun x => p (g x)) l).
+Proof. induction l as [|x r IH]; [reflexivity|]. cbn [map filter]. destruct (p (g x)); cbn [map]; now rewrite IH. Qed.
+Lemma seq_bound s n : Forall (fun i => (i < s + n)%nat) (seq s n).
+Proof. apply Forall_forall. intros i H. apply in_seq in H. lia. Qed.
+Lemma map_snoc {A B} (f:A -> B) l x : (map f l ++ [f x])%list = map f (l ++ [x]).
+Proof. now rewrite map_app. Qed.
